@@ -68,7 +68,7 @@ def sx_prog(p):
 
 # ------------------------------------------------------------------ Ascent / Rust printer
 
-LAT_TY = {"max": "i64", "min": "Dual<i64>", "set": "Set<i64>", "opt": "Option<i64>"}
+LAT_TY = {"max": "i64", "min": "Dual<i64>", "set": "Set<i64>", "opt": "Option<i64>", "bset": "BoundedSet<3, i64>"}
 
 class Names:
     """identifier and type choices (C06 renames them; results must not change)"""
@@ -100,7 +100,7 @@ def rs_ex(e, sc, nm, want="int"):
         base = f"(*{name})" if kind == "ref" else name
         return wrap_lat(base if nm.ity != "String" else f"{name}.clone()", want)
     if e[0] == "somex": return f"Some({rs_ex(e[1], sc, nm)})"
-    if e[0] == "single": return f"Set::singleton({rs_ex(e[1], sc, nm)})"
+    if e[0] == "single": return f"{'BoundedSet' if want == 'bset' else 'Set'}::singleton({rs_ex(e[1], sc, nm)})"
     a, b = rs_ex(e[1], sc, nm), rs_ex(e[2], sc, nm)
     op = {"add": "+", "sub": "-", "mul": "*"}.get(e[0])
     r = f"({a} {op} {b})" if op else f"std::cmp::{e[0]}({a}, {b})"
@@ -109,6 +109,7 @@ def rs_ex(e, sc, nm, want="int"):
 def wrap_lat(s, want):
     if want == "min": return f"Dual({s})"
     if want == "set": return f"Set::singleton({s})"
+    if want == "bset": return f"BoundedSet::singleton({s})"
     if want == "opt": return f"Some({s})"
     return s
 
@@ -223,7 +224,7 @@ def rs_module(name, p, nm=None, macro="ascent", attrs=(), **kw):
 pub mod {name} {{
    use ascent::*;
    use ascent::aggregators::*;
-   use ascent::lattice::{{Dual, set::Set}};
+   use ascent::lattice::{{Dual, set::Set, bounded_set::BoundedSet}};
    use crate::common::*;
    {body.replace(chr(10), chr(10) + '   ')}
    pub struct Inst {{ p: {kw.get('struct', 'Prog')}, pool: Option<std::sync::Arc<ascent::rayon::ThreadPool>> }}
@@ -255,6 +256,10 @@ def join(kind, a, b):
     if kind == "max": return max(a, b)
     if kind == "min": return min(a, b)
     if kind == "set": return ("set", tuple(sorted(set(a[1]) | set(b[1]))))
+    if kind == "bset":        # BoundedSet<3, i64>: "none" is TOP
+        if a == "none" or b == "none": return "none"
+        u = tuple(sorted(set(a[1]) | set(b[1])))
+        return ("set", u) if len(u) <= 3 else "none"
     if kind == "opt":
         if a == "none": return b
         if b == "none": return a
